@@ -352,7 +352,7 @@ def boundary_int(draw, size, signed, small=False):
 
 
 WCHARS = st.one_of(
-    st.sampled_from(list("aZ0 é€中￿Ā\u0001")),
+    st.sampled_from(list("aZ0 é€中￿Ā\u0001\u0100\u4e00\u0200\u00ff\u0041\u1100")),  # incl. code units with a zero low / high byte
     st.characters(min_codepoint=1, max_codepoint=0xFFFF, exclude_categories=["Cs"]),
 )
 
